@@ -7,6 +7,7 @@ package config
 type VerifToken struct {
 	Kind string
 	Text string
+	Line int
 }
 
 // VerifLex runs the real lexer over src and returns its token stream (without EOF) or its error.
@@ -22,15 +23,15 @@ func VerifLex(src string) ([]VerifToken, error) {
 		case tokEOF:
 			return out, nil
 		case tokIdent:
-			out = append(out, VerifToken{"ident", t.text})
+			out = append(out, VerifToken{"ident", t.text, t.pos.line})
 		case tokString:
-			out = append(out, VerifToken{"str", t.text})
+			out = append(out, VerifToken{"str", t.text, t.pos.line})
 		case tokLBrace:
-			out = append(out, VerifToken{"lbrace", t.text})
+			out = append(out, VerifToken{"lbrace", t.text, t.pos.line})
 		case tokRBrace:
-			out = append(out, VerifToken{"rbrace", t.text})
+			out = append(out, VerifToken{"rbrace", t.text, t.pos.line})
 		case tokComment:
-			out = append(out, VerifToken{"comment", t.text})
+			out = append(out, VerifToken{"comment", t.text, t.pos.line})
 		}
 	}
 }
